@@ -113,6 +113,8 @@ pub struct ShardStats {
     /// a value that does not depend on the number of shards
     pub seed_sum: u64,
     pub outcome_sum: u64,
+    /// a shard stops after this many distinct violation classes
+    pub violation_cap: usize,
 }
 
 impl ShardStats {
@@ -135,6 +137,7 @@ impl ShardStats {
             log_hash: crate::Fnv::new(),
             seed_sum: 0,
             outcome_sum: 0,
+            violation_cap: VIOLATION_CAP,
         }
     }
     pub fn run_seed(&mut self, seed: u64) {
@@ -198,7 +201,7 @@ impl ShardStats {
         if !self.violations.iter().any(|w| w.class == v.class && w.property == v.property) {
             self.violations.push(v);
         }
-        self.violations.len() >= VIOLATION_CAP
+        self.violations.len() >= self.violation_cap
     }
     pub fn has_class(&self, property: &str, class: &str) -> bool {
         self.violations.iter().any(|w| w.class == class && w.property == property)
